@@ -41,7 +41,7 @@ type Step struct {
 	Toks  []Tok  `json:"toks,omitempty"`
 	Chunk int    `json:"chunk,omitempty"` // 0 = one write; n = n-byte writes
 	Query string `json:"query,omitempty"` // cpr color fg bg clip
-	Reply string `json:"reply,omitempty"` // now late never
+	Reply string `json:"reply,omitempty"` // now late never sync (sync: answered before the write of the request returns)
 	Index int    `json:"index,omitempty"`
 }
 
@@ -356,7 +356,11 @@ func runQuery(s *vxdrive.Session, c Case, st Step) string {
 	term := s.Term
 	var held [][]byte
 	kind := map[string]string{"cpr": "cpr", "color": "osc4", "fg": "osc10", "bg": "osc11", "clip": "osc52"}[st.Query]
-	if st.Reply != "now" {
+	if st.Reply == "sync" {
+		s.TTY.SetSyncReplies(true)
+		defer s.TTY.SetSyncReplies(false)
+	}
+	if st.Reply != "now" && st.Reply != "sync" {
 		term.Lock()
 		term.Hold = func(k string, reply []byte) bool {
 			if k == kind {
@@ -394,7 +398,7 @@ func runQuery(s *vxdrive.Session, c Case, st Step) string {
 	select {
 	case got = <-done:
 	case <-time.After(queryPatience(st)):
-		if st.Reply == "now" || st.Query == "cpr" || st.Query == "clip" {
+		if st.Reply == "now" || st.Reply == "sync" || st.Query == "cpr" || st.Query == "clip" {
 			if w, why := wedged(stacks()); w {
 				return "query " + st.Query + " never returned: " + why
 			}
@@ -417,7 +421,7 @@ func runQuery(s *vxdrive.Session, c Case, st Step) string {
 	}
 	rgb := func(r, g, b uint8) string { return fmt.Sprintf("%x", uint32(vaxis.RGBColor(r, g, b))) }
 	want := ""
-	answered := st.Reply == "now"
+	answered := st.Reply == "now" || st.Reply == "sync"
 	switch st.Query {
 	case "cpr":
 		term.Lock()
@@ -617,7 +621,14 @@ func genCase(rt *rapid.T) Case {
 	for i := 0; i < ns; i++ {
 		if rapid.IntRange(0, 4).Draw(rt, "query?") == 0 {
 			q := rapid.SampledFrom([]string{"cpr", "cpr", "color", "fg", "bg", "clip"}).Draw(rt, "query")
-			r := rapid.SampledFrom([]string{"now", "now", "late", "never"}).Draw(rt, "reply")
+			r := rapid.SampledFrom([]string{"now", "sync", "now", "late", "never"}).Draw(rt, "reply")
+			if q != "cpr" && r == "sync" {
+				// only the cursor-position report is handed over through a
+				// buffered channel; the other replies give the caller a
+				// real-time window (10 ms) to show up, which a console that
+				// holds the write back would turn into a timing assertion
+				r = "now"
+			}
 			if (q == "color" || q == "fg" || q == "bg") && r == "never" {
 				r = "late"
 			}
